@@ -14,3 +14,17 @@ func vcInv(pd *perBitData) bool {
 func vcBitsLeft(byteOffset uint64, bitsOffset uint, n int) uint64 {
 	return (uint64(n)-byteOffset)*8 - uint64(bitsOffset)
 }
+
+// vcEInv is the encoder cursor invariant.
+func vcEInv(pd *perRawBitData) bool {
+	return pd.bitsOffset <= 7 && len(pd.bytes) <= 1<<30 &&
+		(pd.bitsOffset == 0 || (len(pd.bytes) >= 1 && pd.bytes[len(pd.bytes)-1]&(0xff>>pd.bitsOffset) == 0))
+}
+
+// vcBitLen is the number of bits encoded so far.
+func vcBitLen(pd *perRawBitData) uint64 {
+	if pd.bitsOffset == 0 {
+		return 8 * uint64(len(pd.bytes))
+	}
+	return 8*uint64(len(pd.bytes)) - 8 + uint64(pd.bitsOffset)
+}
